@@ -120,7 +120,21 @@ const SYMBOLS: [&str; 7] = ["file", "dir", "deleted", "label", "lfn+short", "lfn
 fn sym_slots(p: &Placement, sym: usize, pos: usize) -> Vec<[u8; 32]> {
     let t = (FMT_DATE, FMT_TIME);
     match sym {
-        0 => vec![short_entry(&mkfs::n11(&format!("F{}.TXT", pos)), 0x20, p.file_cluster, 100, t.0, t.1, t.0, t.1 + 1)],
+        0 => {
+            // attribute combinations and the fields this library does not interpret vary with the position
+            let attr = [0x20u8, 0x27, 0x02, 0x04, 0x21, 0x00][pos % 6];
+            let mut e = short_entry(&mkfs::n11(&format!("F{}.TXT", pos)), attr, p.file_cluster, 100, t.0, t.1, t.0, t.1 + 1);
+            if pos % 2 == 1 {
+                e[12] = 0x18;
+                e[13] = 199;
+                e[18..20].copy_from_slice(&t.0.to_le_bytes());
+            }
+            if !p.vol.fat32 && pos % 3 == 1 {
+                // FAT16: bytes 20..22 are not a cluster field
+                e[20..22].copy_from_slice(&[0xEF, 0xBE]);
+            }
+            vec![e]
+        }
         1 => vec![short_entry(&mkfs::n11(&format!("D{}", pos)), 0x10, p.dir_cluster, 0, t.0, t.1, t.0, t.1)],
         2 => {
             let mut e = short_entry(&mkfs::n11("XELETED.TXT"), 0x20, p.file_cluster, 100, t.0, t.1, t.0, t.1);
@@ -794,7 +808,19 @@ pub fn _unused(_: &Geom, _: &[u8]) -> String {
 /// handle obtained must list what the independent reader finds in the directory it designates *on its own volume*.
 pub fn two_volume_probe() -> (Vec<Violation>, u64) {
     use embedded_sdmmc::VolumeIdx;
-    let base = Arc::new(super::c01::two_volume_device(1, 1));
+    // the two volumes carry the same standard tree, except for one more file in the root and in SUB of the second
+    let base = {
+        let g16 = scen::g_v16a();
+        let mut g32 = scen::g_v32a();
+        g32.part_slot = 1;
+        g32.lba_start = g16.part_end() + 17;
+        let mut mk = Mk::new(g32);
+        scen::populate(&mut mk, &Default::default());
+        let root = mk.root();
+        mk.file(root, "ONLY32.BIN", 0x20, &[40], 33, 21);
+        mk.file(mkfs::Dir(scen::SUB_CHAIN[0]), "ONLY32.DAT", 0x20, &[41], 34, 22);
+        Arc::new(scen::combine(vec![scen::build(g16, &Default::default()), mk.finish(FsInfo::Correct)]))
+    };
     let vols = [refat::locate(&*base, 0).unwrap(), refat::locate(&*base, 1).unwrap()];
     let img = Image::new(base.clone());
     let names_of = |vi: usize, loc: DirLoc| -> Vec<[u8; 11]> {
